@@ -154,6 +154,8 @@ static void setup_churned(struct wctx *c)
 	json_object_array_del_idx(a, 1, 4);
 	json_object_array_shrink(a, 0);
 	json_object_object_add(c->pre, "arr", a);
+	/* a parsed array: the parser shrinks every array it finishes, so capacity == length */
+	json_object_object_add(c->pre, "parr", json_tokener_parse("[\"p0\",\"p1\",[\"p2\"]]"));
 	c->val = json_object_new_string("the value");
 	c->val_owned = 1;
 }
@@ -191,7 +193,13 @@ static int op_churned(struct wctx *c)
 		}
 		break;
 	case 1: rc = json_object_array_put_idx(a, 5, c->val); break;
-	default: rc = json_object_array_insert_idx(a, 1, c->val); break;
+	case 2: rc = json_object_array_insert_idx(a, 1, c->val); break;
+	case 3: rc = json_object_array_put_idx(a, 1, c->val); break; /* replace the last element of an array with capacity == length */
+	case 4: rc = json_object_array_put_idx(a, 0, c->val); break;
+	case 5: rc = json_object_array_put_idx(json_object_object_get(c->pre, "parr"), 2, c->val); break;
+	case 6: rc = json_object_array_put_idx(json_object_object_get(c->pre, "parr"), 3, c->val); break;
+	case 7: rc = json_object_array_add(json_object_object_get(c->pre, "parr"), c->val); break;
+	default: rc = json_object_array_insert_idx(json_object_object_get(c->pre, "parr"), 0, c->val); break;
 	}
 	if (rc)
 		return R_FAIL;
@@ -782,6 +790,12 @@ static const struct wl WL_STATIC[] = {
     W("8 adds into a table full of tombstones", "add", setup_churned, op_churned, 0),
     W("put_idx beyond the end of a shrunk array", "add", setup_churned, op_churned, 1),
     W("insert_idx into a shrunk array", "add", setup_churned, op_churned, 2),
+    W("put_idx replacing the last element of a shrunk array", "add", setup_churned, op_churned, 3),
+    W("put_idx replacing the first element of a shrunk array", "add", setup_churned, op_churned, 4),
+    W("put_idx replacing the last element of a parsed array", "add", setup_churned, op_churned, 5),
+    W("put_idx at the length of a parsed array", "add", setup_churned, op_churned, 6),
+    W("array_add to a parsed array", "add", setup_churned, op_churned, 7),
+    W("insert_idx at the front of a parsed array", "add", setup_churned, op_churned, 8),
     W("set_string growing", "setstr", setup_str, op_set_string, 0),
     W("set_string_len growing", "setstr", setup_str, op_set_string, 1),
     W("set_string growing again (separate storage)", "setstr", setup_str, op_set_string, 2),
